@@ -158,6 +158,13 @@ theorem nested_property_header_type (r : Str) (hr : r ∈ Header.propRoots) (d1 
       = .ok (r ++ Header.marker) true := by
   rw [component_symbol_table]; exact Header.header_type_property r hr d1 d2 anno hd1 hd2 ha
 
+/-- **the annotation of a nested component never changes its type**: for every table and every header
+    without `[`, whatever is written in the annotation (symbols, `,p`, further brackets) — the general
+    form of the defect repaired in 76fa5ac (`Bdir[ref=1,part=2]{…}` taken for a property) -/
+theorem annotation_does_not_change_the_type (tbl : List Str) (h t : Str) (hh : ∀ x ∈ h, x ≠ '[') :
+    Header.extractType tbl (h ++ '[' :: t) = Header.extractType tbl h :=
+  Header.annotation_has_no_influence tbl h t hh
+
 /-- the hypotheses are met by `Bdir12,p3[ref=1,part=2]`, and the answer is computed as stated -/
 example : Header.extractType Header.table (str "Bdir12,p3[ref=1,part=2]") = .ok (str "Bdir,p") true := by decide
 example : (str "Bdir") ∈ Header.propRoots ∧ (∀ c ∈ str "12", c.isDigit = true) := by decide
